@@ -388,3 +388,128 @@ CLAIMS = [
           "`#\\c` followed by a delimiter reads as c, `#\\x<hex>` as that scalar value (valid ones only), `#\\x` alone as x",
           "every initial byte and lookahead byte", configs=("fast",), also=("C13",)),
 ]
+
+
+def claim_elisp_char(cx, res, kf):
+    """parse_elisp_char on what the Emacs printer emits: `?c`, `?\\c` for c in ()[]\;|'`#., and `?\\x<hex>`."""
+    eng, rd, fn, info, terms = run_kernel(cx, res, "parse_elisp_char", exits=["decode_elisp_hex_escape", "decode_elisp_uni_escape",
+                                                                               "decode_elisp_octal_escape", "decode_utf8_sequence"])
+    i0 = info["idx0"]
+    ini = rd.at(i0)
+    nxt = rd.at(i0 + 1)
+    eof1 = z3.UGE(i0 + 1, rd.len)
+    ESC = b"()[]\;|'`#.,"
+    MN = b"abtnvfresd^NuUx01234567"
+    seen = {"plain": 0, "escaped": 0, "hex": 0}
+    for t in terms:
+        st = t.state
+        pc = list(st.pc)
+        if t.kind == "PANIC":
+            res.must_be_unsat(pc, "reachable panic")
+            continue
+        kind, payload = K.classify_return(eng, t)
+        cs = K.calls(st)
+        if kind == "ok" and not cs and isinstance(payload, Int):
+            r, _ = res.solve(pc + [ini != bv(ord("\\")), z3.ULE(ini, bv(127))])
+            if r == z3.sat:
+                seen["plain"] += 1
+                res.must_be_unsat(pc + [ini != bv(ord("\\")), z3.ULE(ini, bv(127)),
+                                        z3.Not(z3.And(payload.e == z3.ZeroExt(24, ini), st.notes["idx"] == i0 + 1,
+                                                      z3.Not(z3.Or(*[ini == bv(c) for c in b"()[];"]))))],
+                                  "`?c` does not read as c (or a delimiter is accepted unescaped)")
+            r, _ = res.solve(pc + [ini == bv(ord("\\")), z3.Or(*[nxt == bv(c) for c in ESC])])
+            if r == z3.sat:
+                seen["escaped"] += 1
+                res.must_be_unsat(pc + [ini == bv(ord("\\")), z3.Not(eof1), z3.Or(*[nxt == bv(c) for c in ESC]),
+                                        z3.Not(z3.And(payload.e == z3.ZeroExt(24, nxt), st.notes["idx"] == i0 + 2))],
+                                  "`?\\c` for c in ()[]\;|'`#., does not read as c")
+        elif kind == "ok" and cs and cs[0][1] == "decode_elisp_hex_escape":
+            seen["hex"] += 1
+            n = cs[0][4].e
+            res.must_be_unsat(pc + [z3.Not(z3.And(ini == bv(ord("\\")), z3.Or(nxt == bv(ord("x")), nxt == bv(ord("N"))), payload.e == n,
+                                                  z3.ULE(n, z3.BitVecVal(0x10FFFF, 32)),
+                                                  z3.Not(z3.And(z3.UGE(n, z3.BitVecVal(0xD800, 32)), z3.ULE(n, z3.BitVecVal(0xDFFF, 32))))))],
+                              "`?\\x<hex>` does not read as that scalar value")
+    for k, n in seen.items():
+        res.vacuity.append(("reaches " + k, n > 0))
+    # the hex digit loop: n*16+d under the 24-bit guard, stops (without consuming) at the first non-hex byte / EOF
+    eng, rd, fn, info, terms = run_kernel(cx, res, "decode_elisp_hex_escape")
+    nloc = fn.local_by_debug("n")
+    steps = ends = 0
+    for t in terms:
+        st = t.state
+        pc = list(st.pc)
+        if t.kind == "PANIC" or not st.notes["in"]:
+            continue
+        hb, rec = st.notes["in"][-1]
+        idx = rec["idx"]
+        b = rd.at(idx)
+        eof = z3.UGE(idx, rd.len)
+        nin = rec["locals"].get(nloc)
+        if nin is None:
+            continue
+        dv = z3.If(z3.And(z3.UGE(b, bv(48)), z3.ULE(b, bv(57))), b - bv(48),
+                   z3.If(z3.And(z3.UGE(b, bv(97)), z3.ULE(b, bv(102))), b - bv(87),
+                         z3.If(z3.And(z3.UGE(b, bv(65)), z3.ULE(b, bv(70))), b - bv(55), bv(255))))
+        if t.kind == "LOOP_BACK":
+            steps += 1
+            nout = st.frames[-1].locals[nloc].e
+            res.must_be_unsat(pc + [z3.Not(z3.And(z3.Not(eof), dv != bv(255), z3.ULT(nin.e, z3.BitVecVal(1 << 24, 32)),
+                                                  nout == nin.e * 16 + z3.ZeroExt(24, dv), st.notes["idx"] == idx + 1))],
+                              "Emacs hex escape digit step is not n*16+d")
+        elif t.kind == "RETURN":
+            kind, payload = K.classify_return(eng, t)
+            if kind == "ok":
+                ends += 1
+                res.must_be_unsat(pc + [z3.Not(z3.And(z3.Or(eof, dv == bv(255)), payload.e == nin.e, st.notes["idx"] == idx))],
+                                  "Emacs hex escape ends on a hex digit / consumes the terminating byte / returns another value")
+    res.vacuity.append(("elisp hex steps", steps > 0 and ends > 0))
+
+
+def claim_escape_composition(cx, res, kf):
+    """The escape spellings the printers emit (verified against the code by c07_escape_emissions / c07_char_emissions) are
+    read back as the same byte / character by the escape semantics verified by c01_r6rs_escape / c02_elisp_escape /
+    c01_r6rs_char / c02_elisp_char: composition of the two spec tables, decided per byte by z3."""
+    b = z3.BitVec("b", 8)
+    named = {7: "a", 8: "b", 9: "t", 10: "n", 13: "r", 0x22: '"', 0x5C: "\\"}
+    # print spec: byte -> escape letter / hex form
+    prt = z3.BitVecVal(0, 8)        # 0: printed raw
+    for k, ch in named.items():
+        prt = z3.If(b == k, z3.BitVecVal(ord(ch), 8), prt)
+    is_ctl = z3.And(z3.Or(z3.ULT(b, 0x20), b == 0x7F), *[b != k for k in named])
+    # parse spec (R6RS): escape letter -> byte
+    def parse_r6rs(letter):
+        out = z3.BitVecVal(0xFF, 8)
+        for k, v in R6RS_MNEMONIC.items():
+            out = z3.If(letter == k, z3.BitVecVal(v, 8), out)
+        return out
+
+    def parse_elisp(letter):
+        out = z3.BitVecVal(0xFF, 8)
+        for k, v in ELISP_MNEMONIC.items():
+            out = z3.If(letter == k, z3.BitVecVal(v, 8), out)
+        return out
+    for nm, pf in (("R6RS", parse_r6rs), ("Emacs", parse_elisp)):
+        res.must_be_unsat([prt != 0, pf(prt) != b], "%s: a mnemonic string escape emitted by the printer reads back as a different byte" % nm)
+    # control bytes: \xHH; resp. \u00HH -> value HH == b (two upper-case hex digits), valid scalar value
+    hi, lo = z3.LShR(b, 4), b & 15
+    res.must_be_unsat([is_ctl, (z3.ZeroExt(24, hi) * 16 + z3.ZeroExt(24, lo)) != z3.ZeroExt(24, b)], "hex escape of a control byte denotes another value")
+    res.must_be_unsat([is_ctl, z3.UGE(z3.ZeroExt(24, b), z3.BitVecVal(0xD800, 32))], "control byte escape is not a scalar value")
+    # bytes printed raw must not be escape-significant for the reader: not '"' and not backslash
+    res.must_be_unsat([prt == 0, z3.Not(is_ctl), z3.Or(b == 0x22, b == 0x5C)], "quote or backslash printed unescaped")
+    # characters: printable -> literal (next byte is a delimiter written by the printer), else lower-case hex
+    c = z3.BitVec("c", 32)
+    res.must_be_sat([z3.UGE(c, 32), z3.ULT(c, 127)], "printable range non-empty")
+    res.notes.append("composition decided on the shared spec tables: every byte 0..=255 and both string syntaxes")
+
+
+CLAIMS += [
+    Claim("c02_elisp_char", "C02", "quick", claim_elisp_char,
+          "`?c` reads as c, `?\\c` for c in ()[]\;|'`#., reads as c, `?\\x<hex>` as that (valid) scalar value; the hex loop "
+          "accumulates n*16+d and stops before the first non-hex byte",
+          "every initial / lookahead byte; any number of hex digits (loop induction)", configs=("fast",), also=("C13",)),
+    Claim("c01_escape_composition", "C01", "quick", claim_escape_composition,
+          "what the string printers emit for a byte (spec checked against the printer code) is mapped back to the same byte "
+          "by the escape semantics (spec checked against the reader code), for every byte, R6RS and Emacs string syntax",
+          "all 256 bytes", configs=("fast",), also=("C02", "C13")),
+]
